@@ -1,0 +1,64 @@
+// Verification hooks (compiled only with -DYIXUAN_SPECTRA_VERIF).
+// Purely observational: a thread-local callback that receives a read-only view of the
+// Krylov factorization at the points where it is passed on. Null by default.
+
+#ifndef SPECTRA_VERIF_HOOKS_H
+#define SPECTRA_VERIF_HOOKS_H
+
+#ifdef YIXUAN_SPECTRA_VERIF
+
+namespace Spectra {
+namespace verif {
+
+enum Event
+{
+    EvInit = 0,         // end of Arnoldi::init(): step-1 factorization
+    EvExtended = 1,     // end of factorize_from(): step-to_m factorization
+    EvCompressed = 2,   // end of compress_V(): step-k factorization after an implicit restart
+    EvExpandBasis = 3,  // expand_basis() produced a fresh direction (aux = 1 if accepted, 0 if it gave up)
+    EvForcedZero = 4,   // residual forced to zero (beta carries the norm that was dropped)
+    EvLocalRestart = 5, // Lanczos: coupling dropped and a fresh direction requested (beta = dropped coupling)
+    EvReorthGaveUp = 6  // re-orthogonalisation loop left with ortho_err > eps * beta (aux = ortho_err)
+};
+
+struct FacView
+{
+    int event;
+    long n, m, k, i;
+    const void* V;  // n x m, column major, Scalar
+    const void* H;  // m x m, column major, Scalar
+    const void* f;  // n, Scalar
+    long double beta;
+    long double aux;
+};
+
+typedef void (*ObserverFn)(void* ctx, const FacView& view);
+
+struct ObserverSlot
+{
+    ObserverFn fn;
+    void* ctx;
+};
+
+inline ObserverSlot& observer_slot()
+{
+    static thread_local ObserverSlot slot = {nullptr, nullptr};
+    return slot;
+}
+
+inline void notify(const FacView& view)
+{
+    ObserverSlot& slot = observer_slot();
+    if (slot.fn)
+        slot.fn(slot.ctx, view);
+}
+
+// Defined by a test harness only; named as a friend by the solver base classes.
+struct Access;
+
+}  // namespace verif
+}  // namespace Spectra
+
+#endif  // YIXUAN_SPECTRA_VERIF
+
+#endif  // SPECTRA_VERIF_HOOKS_H
